@@ -395,3 +395,43 @@ def _level_mean(cls_name, two):
 for _cn in ("Quantile", "Threshold"):
     _level_mean(_cn, False)
     _level_mean(_cn, True)
+
+
+# ------------------------------------------------------------------ spread-skill ratio
+def _b_ssr(G, inp):
+    inp.lower = G.num("lower", kinds=(FIN,))
+    inp.upper = G.num("upper", kinds=(FIN,))
+    G.assume(inp.lower > 0)
+    G.assume(inp.upper < 1)
+    G.assume(inp.lower < inp.upper)
+
+
+def _s_ssr(S, inp, out):
+    n = S.to_num(S.count(inp.obs))
+    spread = S.sum_where(inp.obs, lambda i: S.at(inp.b, i) - S.at(inp.a, i)) / n
+    skill = S.sqrt(S.sum_where(inp.obs, lambda i: abs(S.at(inp.obs, i) - S.at(inp.fc, i)) ** 2) / n)      # |e|^2 (= e^2; written as the code's term so that the sums unify)
+    num_std = 0.5 * (S.ppf(inp.upper) - S.ppf(inp.lower))
+    want = spread / num_std / skill
+    return [("DEF:mean-quantile-spread-in-standard-deviations-over-rmse", S.implies(S.isfin(want), S.same(out, want)))]
+
+
+_single("definition", "SpreadSkillRatio", _b_ssr, _s_ssr)
+
+
+def _pithist_expected():
+    def setup(G):
+        return Bag(v=G.array("v", ("n",), kinds=(FIN,), min_size=1))
+
+    def call(inp):
+        return verif.metric.PitHistDev.expected_deviation(inp.v, 10), verif.metric.PitHistDev.deviation_std(inp.v, 10)
+
+    def post(S, inp, out):
+        n = S.to_num(S.count(inp.v))
+        return [("expected-deviation=sqrt((1-1/B)/(n*B))", S.same(out[0], S.sqrt((1.0 - 1.0 / 10) / (n * 10)))),
+                ("deviation-std=sqrt(n*p*(1-p))/n", S.same(out[1], S.sqrt(n * (1.0 / 10) * (1 - 1.0 / 10)) / n))]
+    return setup, call, post
+
+
+s, c, p = _pithist_expected()
+register(Obligation("verif.metric.PitHistDev.expected_deviation#POST:definition", ("C08",), s, c, p, modules=MOD,
+                    functions=["verif.metric.PitHistDev.expected_deviation", "verif.metric.PitHistDev.deviation_std"]))
